@@ -328,9 +328,12 @@ type refSys struct {
 	hist   []RefOp
 }
 
+var fixedTime = time.Unix(1700000000, 0)
+
 func newRefSys(r *ev.Run, proto int) *refSys {
 	s := &refSys{r: r, proto: proto, path: filepath.Join(srv.Scratch(), fmt.Sprintf("c10-refresh-%d.txt", proto)), onDisk: "good1"}
 	os.WriteFile(s.path, []byte(contents[proto]["good1"]), 0o644)
+	os.Chtimes(s.path, fixedTime, fixedTime)
 	var err error
 	s.h4, s.h6, err = setup(proto, s.path) // watcher replaced by explicit reload events
 	if err != nil {
@@ -368,6 +371,9 @@ func (s *refSys) Apply(op RefOp, live bool) string {
 	switch op.Kind {
 	case "write":
 		os.WriteFile(s.path, []byte(contents[s.proto][op.Content]), 0o644)
+		// the file system's timestamp granularity belongs to the environment: model the
+		// coarsest one (every rewrite lands in the same tick; good1 and good2 have the same size)
+		os.Chtimes(s.path, fixedTime, fixedTime)
 		s.onDisk = op.Content
 	case "reload":
 		err := file.VerifReload(s.proto == 6, s.path)
@@ -513,7 +519,13 @@ func bindingRun(r *ev.Run) {
 	if !wait(goodTables[4]["good2"]) {
 		res = "binding_inconclusive: good update not observed within 30s"
 	}
-	os.WriteFile(f, []byte(contents[4]["bad"]), 0o644)
+	// the malformed update is an APPEND (one write, no truncation window): a rewrite would
+	// leave the file empty - a well-formed empty table - for a moment, and loading that is
+	// not a violation
+	if fh, err := os.OpenFile(f, os.O_APPEND|os.O_WRONLY, 0o644); err == nil {
+		fh.WriteString("\n" + macB)
+		fh.Close()
+	}
 	time.Sleep(300 * time.Millisecond)
 	if res == "ok" && !served(goodTables[4]["good2"]) {
 		r.Violate("C10/binding/bad-update-changed-table", "real watcher: a malformed rewrite changed the served mapping", "real watcher good2 -> bad")
